@@ -27,6 +27,8 @@ typedef struct sn_conn {
 	int connect_polls;       /* number of poll() calls answered "not yet writable" before connected */
 	size_t parsed_out;       /* server side: bytes of out already consumed by the server logic */
 	void *user;
+	long rcv_timeo_s, snd_timeo_s;   /* SO_RCVTIMEO / SO_SNDTIMEO as set by the client (seconds; 0 = never set) */
+	int rcv_timeo_set, snd_timeo_set;
 } sn_conn;
 
 typedef struct sn_hooks {
